@@ -27,7 +27,7 @@ theorem facts_makeHeader_cases : makeHeader_cases =
      "b.Type == restic.TreeBlob && b.UncompressedLength != 0", "default"] := by decide
 
 /-- … and of the reader -/
-theorem facts_parseHeaderEntry_cases : parseHeaderEntry_cases = ["0", "2", "1", "3", "default"] := by decide
+theorem facts_parseHeaderEntry_cases : Restic.Gen.parseHeaderEntry_cases = ["0", "2", "1", "3", "default"] := by decide
 
 /-- the four guards of `readRecords`, in this order -/
 theorem facts_readRecords_cases : readRecords_cases =
@@ -195,7 +195,7 @@ theorem finalize_ok (k : Crypto) (hk : Crypto.Lawful k) (nonce : Bytes) (bs : Li
       = header.length + pack_headerSize := by
     simp only [List.length_append, le32_length, hk.seal_len, hn]; omega
   rw [hlen, Nat.mod_eq_of_lt (by omega)]
-  simp only [ne_eq, not_true_eq_false, if_false, withOffsets_length, hoff, zip_self_all, if_true]
+  simp only [ne_eq, not_true_eq_false, if_false, hoff, zip_self_all, if_true]
 
 /-! ## the packer -/
 
@@ -289,6 +289,7 @@ theorem list_finalize (k : Crypto) (hk : Crypto.Lawful k) (nonce : Bytes) (adds 
       p'.out.take (totalLength expected) = (adds.map (·.2.2.1)).flatten ∧
       p'.bytes = p'.out.length := by
   intro p expected
+  have hmax' : entriesSize p.blobs + pack_headerSize ≤ pack_MaxHeaderSize := hmax
   have hinv : Packer.Inv p := addAll_inv {} Packer.inv_empty adds
   obtain ⟨hblobs, hout⟩ := addAll_blobs {} Packer.inv_empty adds
   have hb : p.blobs = expected := by simpa using hblobs
@@ -299,7 +300,7 @@ theorem list_finalize (k : Crypto) (hk : Crypto.Lawful k) (nonce : Bytes) (adds 
     cases adds with
     | nil => exact absurd rfl hne
     | cons a as => simp [expected, expectedListing]
-  obtain ⟨header, hm, hfin⟩ := finalize_ok k hk nonce p.blobs hn hwf hne' hinv.offsets hmax
+  obtain ⟨header, hm, hfin⟩ := finalize_ok k hk nonce p.blobs hn hwf hne' hinv.offsets hmax'
   have hhl := makeHeader_length p.blobs hwf header hm
   obtain ⟨h4, hplain, hentry, hhs, hext, hmin, hmax32, _⟩ := facts_layout
   have htl : (nonce ++ k.sealB nonce header ++ le32 (nonce ++ k.sealB nonce header).length).length
@@ -313,7 +314,7 @@ theorem list_finalize (k : Crypto) (hk : Crypto.Lawful k) (nonce : Bytes) (adds 
     rw [this, hinv.offsets, hb, hhl, hb]
     congr 2; omega
   · simp only [List.length_append] at htl ⊢
-    simp only [List.length_append, hinv.out, hinv.bytes, hb] at htl ⊢
+    simp only [hinv.out, hinv.bytes, hb] at htl ⊢
     omega
   · have : totalLength expected = p.out.length := by rw [hinv.out, hinv.bytes, hb]
     simp only
